@@ -215,6 +215,27 @@ def one_graph(drv, g, desc, res, tag, fix_first_pose):
             if not ok or type(v.pose).__name__ != cname:
                 bad("update-boxplus", vertex=v.id, before=p0.tolist(), dx=d.tolist(), after=p1.tolist(), model=exp.tolist())
                 return
+    # --- stage 6: a second call after the caller changed the flags: the fixed set is rebuilt from the flags (no stale state)
+    import random as _r
+
+    rr = _r.Random(tag)
+    newflags = [rr.random() < 0.4 for _ in g._vertices]
+    ffp2 = rr.random() < 0.5
+    for v, f in zip(g._vertices, newflags):
+        v.fixed = f
+    try:
+        with warnings.catch_warnings():
+            warnings.simplefilter("ignore")
+            g.optimize(tol=0.0, max_iter=1, fix_first_pose=ffp2, verbose=False)
+    except Exception as ex:  # noqa
+        bad("second-call-raised", error="%s: %s" % (type(ex).__name__, ex))
+        return
+    r = drv.ask("fixedidx %d %d %s %s" % (1 if ffp2 else 0, len(newflags), " ".join("1" if f else "0" for f in newflags), " ".join(str(v.gradient_index) for v in g._vertices)))
+    mflags, mfixed = r[3:].split("|")
+    res["cases"] += 1
+    if [x == "1" for x in mflags.split()] != [bool(v.fixed) for v in g._vertices] or sorted(int(x) for x in mfixed.split()) != sorted(g._fixed_gradient_indices):
+        bad("second-call-fixed-set", impl_flags=[bool(v.fixed) for v in g._vertices], impl_fixed=sorted(g._fixed_gradient_indices), model=r)
+        return
     res["graphs"] += 1
 
 
